@@ -30,9 +30,23 @@ pub struct Msg {
     pub len: usize,
     /// content generator seed
     pub fill: u8,
+    /// four-byte values written over the payload: (offset, value, big-endian) -- e.g. another channel's id
+    #[serde(default)]
+    pub embed: Vec<(u16, u32, bool)>,
 }
 
 fn payload(m: &Msg) -> Vec<u8> {
+    let mut p = payload_base(m);
+    for (off, val, be) in &m.embed {
+        let off = *off as usize;
+        if off + 4 <= p.len() {
+            p[off..off + 4].copy_from_slice(&if *be { val.to_be_bytes() } else { val.to_ne_bytes() });
+        }
+    }
+    p
+}
+
+fn payload_base(m: &Msg) -> Vec<u8> {
     // payloads of one or two bytes carry the fill byte itself (so every one-byte payload value can be addressed)
     if m.len <= 2 {
         return [m.fill, m.fill ^ 0x55][..m.len].to_vec();
@@ -207,6 +221,9 @@ pub struct Merge {
     /// they yield nothing and disturb nobody
     #[serde(default)]
     pub strays: Vec<(usize, u8)>,
+    /// this many other channels have each started a fragmented message earlier and never finished it
+    #[serde(default)]
+    pub abandoned_elsewhere: usize,
 }
 
 pub fn check_merge(ctx: &mut Ctx, mg: &Merge) -> Result<(), String> {
@@ -224,7 +241,7 @@ pub fn check_merge(ctx: &mut Ctx, mg: &Merge) -> Result<(), String> {
     // abandoned transmissions first: some of their packets arrive, never the last one
     for (ch, len, fill, k) in &mg.abandoned {
         let Some(m) = mg.msgs.get(*ch % mg.msgs.len().max(1)) else { continue };
-        let other = Msg { channel: m.channel, cmd: (m.cmd + 1) % 9, len: (*len).min(MAX_PAYLOAD), fill: *fill };
+        let other = Msg { channel: m.channel, cmd: (m.cmd + 1) % 9, len: (*len).min(MAX_PAYLOAD), fill: *fill, embed: vec![] };
         if let Some(p) = send(&other)? {
             if p.len() < 2 {
                 continue;
@@ -236,6 +253,22 @@ pub fn check_merge(ctx: &mut Ctx, mg: &Merge) -> Result<(), String> {
             }
             ctx.class("merge/after an abandoned transmission on the same channel");
         }
+    }
+    // unfinished transmissions on channels none of the messages uses
+    for k in 0..mg.abandoned_elsewhere {
+        let channel = (0u32..).map(|j| 0x7A00_0000u32.wrapping_add((k as u32) << 8).wrapping_add(j)).find(|c| mg.msgs.iter().all(|m| m.channel != *c)).unwrap();
+        let other = Msg { channel, cmd: k % 9, len: 100 + k % 50, fill: k as u8 | 1, embed: vec![] };
+        if let Some(p) = send(&other)? {
+            if catch_unwind(AssertUnwindSafe(|| h.handle_packet(&p[0]))).map_err(|_| format!("handle_packet panicked: {}", crate::last_panic()))?.is_some() {
+                return Err("a message was delivered although its last packet never arrived".into());
+            }
+        }
+    }
+    if mg.abandoned_elsewhere > 0 {
+        ctx.class(&format!("merge/while {} other channels hold unfinished transmissions", if mg.abandoned_elsewhere >= 16 { "16 or more" } else { "up to 15" }));
+    }
+    if mg.msgs.iter().any(|m| !m.embed.is_empty()) {
+        ctx.class("merge/a payload carries another channel's id");
     }
     // a channel id none of the messages uses
     let idle_channel = (0u32..).map(|k| 0x5151_0000u32.wrapping_add(k)).find(|c| mg.msgs.iter().all(|m| m.channel != *c)).unwrap();
@@ -326,7 +359,7 @@ fn msg() -> impl Strategy<Value = Msg> {
         1 => prop_oneof![Just(65535usize), Just(65536), Just(7609), Just(7610), Just(7608)],
         2 => 0usize..=8000,
     ];
-    (ch, 0usize..9, len, any::<u8>()).prop_map(|(channel, cmd, len, fill)| Msg { channel, cmd, len, fill })
+    (ch, 0usize..9, len, any::<u8>()).prop_map(|(channel, cmd, len, fill)| Msg { channel, cmd, len, fill, embed: vec![] })
 }
 
 pub fn run(ctx: &mut Ctx) {
@@ -351,7 +384,7 @@ pub fn run(ctx: &mut Ctx) {
     lens.dedup();
     'sweep: for (i, len) in lens.iter().enumerate().filter(|_| fs) {
         for fill in if thorough { vec![0u8, 255, 7] } else { vec![(i % 254) as u8 + 1] } {
-            let m = Msg { channel: [0x0102_0304u32, 0, 0xFFFF_FFFF, 0xA1B2_C3D4][i % 4], cmd: i % 9, len: *len, fill };
+            let m = Msg { channel: [0x0102_0304u32, 0, 0xFFFF_FFFF, 0xA1B2_C3D4][i % 4], cmd: i % 9, len: *len, fill, embed: vec![] };
             if let Err(e) = check_message(ctx, &m) {
                 ctx.violation("lengths", json!(m), &e);
                 break 'sweep;
@@ -374,10 +407,10 @@ pub fn run(ctx: &mut Ctx) {
         }
         // commands rotate so that every command (incl. INIT) appears on some channel of some shape
         for rot in 0..ctx.tier.pick(9usize, 9usize) {
-            let msgs: Vec<Msg> = shape.iter().enumerate().map(|(i, packets)| Msg { channel: [7u32, 0xFFFF_FFFF, 0, 0x0A0B_0C0D][i], cmd: (i * 2 + rot + si) % 9, len: if *packets == 1 { 8 + i } else { 57 + 59 * (packets - 2) + 1 + i }, fill: (i + 1) as u8 }).collect();
+            let msgs: Vec<Msg> = shape.iter().enumerate().map(|(i, packets)| Msg { channel: [7u32, 0xFFFF_FFFF, 0, 0x0A0B_0C0D][i], cmd: (i * 2 + rot + si) % 9, len: if *packets == 1 { 8 + i } else { 57 + 59 * (packets - 2) + 1 + i }, fill: (i + 1) as u8, embed: vec![] }).collect();
             for order in all_merges(shape) {
                 enumerated += 1;
-                let mg = Merge { msgs: msgs.clone(), order, abandoned: vec![], strays: vec![] };
+                let mg = Merge { msgs: msgs.clone(), order, abandoned: vec![], strays: vec![], abandoned_elsewhere: 0 };
                 if let Err(e) = check_merge(ctx, &mg) {
                     ctx.violation("merges-exhaustive", json!(mg), &e);
                     break 'merges;
@@ -393,7 +426,7 @@ pub fn run(ctx: &mut Ctx) {
             m.channel = m.channel.wrapping_mul(4).wrapping_add(i as u32);
             m.len %= 1500;
         }
-        Merge { msgs, order, abandoned: vec![], strays: vec![] }
+        Merge { msgs, order, abandoned: vec![], strays: vec![], abandoned_elsewhere: 0 }
     });
     // a third of the generated merges start on a receiver that still holds given-up transmissions of the same channels
     let strat = (strat, proptest::collection::vec((0usize..4, prop_oneof![58usize..400, 400usize..7609], any::<u8>(), 1usize..6), 0..3), 0u8..3).prop_map(|(mut mg, abandoned, sel)| {
@@ -409,10 +442,50 @@ pub fn run(ctx: &mut Ctx) {
         }
         mg
     });
+    // a third carry another channel's id somewhere in a payload; a quarter start while other channels hold unfinished transmissions
+    let strat = (strat, any::<u16>(), any::<u8>(), 0usize..48).prop_map(|(mut mg, off, sel, others)| {
+        let n = mg.msgs.len();
+        if sel % 3 == 0 {
+            for i in 0..n {
+                let named = mg.msgs[(i + 1) % n].channel;
+                mg.msgs[i].embed = vec![((off >> (i * 2)) % 24, named, sel & 8 != 0)];
+            }
+        }
+        if sel % 4 == 1 {
+            mg.abandoned_elsewhere = others;
+        }
+        mg
+    });
     let n = ctx.tier.pick(15_000u32, 4_000_000u32);
     match search(ctx, 26, n, strat, check_merge) {
         Search::Pass => {}
         Search::Fail(m, e) => ctx.violation("merges", json!(m), &e),
+    }
+    // ---- every command x a complete single-packet message that carries the id of a channel with a message in progress at
+    // every offset (both byte orders), and fragmented messages that start while n other channels hold unfinished transmissions
+    if fs && ctx.violations.is_empty() {
+        'named: for cmd in 0..9usize {
+            for off in 0..=20u16 {
+                for be in [false, true] {
+                    for (len, waiting) in [(17usize, 0x0A0B_0C0Du32), (57, 0x0000_0001), (24, 0xFFFF_FFFE)] {
+                        let msgs = vec![Msg { channel: waiting, cmd: (cmd + 1) % 9, len: 150, fill: 9, embed: vec![] }, Msg { channel: if off % 2 == 0 { 0xFFFF_FFFF } else { 0x0000_0007 }, cmd, len, fill: 3, embed: vec![(off, waiting, be)] }];
+                        let mg = Merge { msgs, order: vec![0, 0, 1, 0], abandoned: vec![], strays: vec![], abandoned_elsewhere: 0 };
+                        if let Err(e) = check_merge(ctx, &mg) {
+                            ctx.violation("merges", json!(mg), &e);
+                            break 'named;
+                        }
+                    }
+                }
+            }
+        }
+        for others in [1usize, 15, 16, 17, 31, 32, 33, 64, 255, 256, 1000] {
+            let msgs = vec![Msg { channel: 0x0102_0304, cmd: 1, len: 150, fill: 9, embed: vec![] }, Msg { channel: 5, cmd: 3, len: 60, fill: 4, embed: vec![] }];
+            let mg = Merge { msgs, order: vec![0, 1, 0, 1, 0], abandoned: vec![], strays: vec![], abandoned_elsewhere: others };
+            if let Err(e) = check_merge(ctx, &mg) {
+                ctx.violation("merges", json!(mg), &e);
+                break;
+            }
+        }
     }
     // ---- sequences through one receiver; a transmission repeats the one before it in a third of the positions
     let seq = proptest::collection::vec((msg(), 0u8..3), 1..7).prop_map(|v| {
@@ -439,10 +512,10 @@ pub fn run(ctx: &mut Ctx) {
         'sweep: for cmd in 0..9usize {
             for b in 0..=255u8 {
                 let seq = vec![
-                    Msg { channel: 0x0101_0101, cmd, len: 1, fill: b },
-                    Msg { channel: 0x0202_0202, cmd: (cmd + 3) % 9, len: 70 + (b as usize % 60), fill: b.wrapping_add(1) | 1 },
-                    Msg { channel: 0x0303_0303, cmd: (cmd + 5) % 9, len: 1 + (b as usize % 2), fill: b },
-                    Msg { channel: 0x0101_0101, cmd: (cmd + 1) % 9, len: 9, fill: 7 },
+                    Msg { channel: 0x0101_0101, cmd, len: 1, fill: b, embed: vec![] },
+                    Msg { channel: 0x0202_0202, cmd: (cmd + 3) % 9, len: 70 + (b as usize % 60), fill: b.wrapping_add(1) | 1, embed: vec![] },
+                    Msg { channel: 0x0303_0303, cmd: (cmd + 5) % 9, len: 1 + (b as usize % 2), fill: b, embed: vec![] },
+                    Msg { channel: 0x0101_0101, cmd: (cmd + 1) % 9, len: 9, fill: 7, embed: vec![] },
                 ];
                 if let Err(e) = check_sequence(ctx, &seq) {
                     ctx.violation("sequences", json!(seq), &e);
@@ -459,7 +532,7 @@ pub fn run(ctx: &mut Ctx) {
     let skew = (proptest::collection::vec((any::<u32>(), 0usize..9, any::<u8>()), 4), frag.clone(), big, prop_oneof![1 => 0usize..58, 2 => frag.clone()], frag, 1usize..6, any::<bool>(), proptest::collection::vec(0usize..4, 0..40)).prop_map(
         move |(ids, paused_len, big_len, small_len, late_len, before, three, tail)| {
             let lens = [paused_len, big_len, small_len, late_len];
-            let mut msgs: Vec<Msg> = ids.iter().enumerate().map(|(i, (ch, cmd, fill))| Msg { channel: ch.wrapping_mul(4).wrapping_add(i as u32), cmd: *cmd, len: lens[i], fill: *fill }).collect();
+            let mut msgs: Vec<Msg> = ids.iter().enumerate().map(|(i, (ch, cmd, fill))| Msg { channel: ch.wrapping_mul(4).wrapping_add(i as u32), cmd: *cmd, len: lens[i], fill: *fill, embed: vec![] }).collect();
             // channel 0 pauses after `before` packets; 1 (and 2) run to completion meanwhile; 3 starts late
             let mut order = vec![0usize; before.min(packets_of(paused_len) - 1)];
             order.extend(std::iter::repeat(1).take(packets_of(big_len)));
@@ -474,7 +547,7 @@ pub fn run(ctx: &mut Ctx) {
                 order.extend(std::iter::repeat(0).take(packets_of(paused_len)));
             }
             order.extend(tail);
-            Merge { msgs, order, abandoned: vec![], strays: vec![] }
+            Merge { msgs, order, abandoned: vec![], strays: vec![], abandoned_elsewhere: 0 }
         },
     );
     let n = ctx.tier.pick(400u32, 60_000u32);
